@@ -145,6 +145,15 @@ CLAIMED = {
         "Trusts the hierarchy model in pv/props/c17.py (substitution on a small type AST). Single-inheritance chains only.",
         "DESIGN.md section 5, C17",
     ),
+    'C18': (
+        "Hypothesis enumeration-by-sampling of subsets of the seven handler sources x call forms x positions x directions; oracle = the documented precedence order coded as a list, observed through source-labelled converters",
+        "Every source converts the marker type to a value naming the source; the observed label at each position (direct field, List, Dict, Optional, "
+        "Tuple, nested dataclass, subclass, top-level container) and in both directions must be the first present source in the documented order; "
+        "declining handlers (NotImplemented / NotImplementedError) are skipped; mapping-form handlers match only the exact unparameterised type; "
+        "global handlers sit after the scalar built-ins and the protocol, before structural built-ins.",
+        "A fresh marker class per case keeps the converter cache out of the picture; one global dispatcher is registered per process.",
+        "DESIGN.md section 5, C18",
+    ),
     'C20': (
         "exhaustive enumeration of a finite name set + Hypothesis search, against an independent canonical renderer",
         "Every 1-3 word name over a 3-letter alphabet (47 988 names) is swept exhaustively through all 5 styles and all 25 style "
